@@ -294,7 +294,7 @@ pub fn supervise(prop: &Property, tier: Tier) -> i32 {
 
     // Coverage-guided campaigns (thorough tier only).
     let mut fuzz_info = Vec::new();
-    if tier == Tier::Thorough && inconclusive.is_none() {
+    if tier == Tier::Thorough && inconclusive.is_none() && std::env::var_os("EBV_DEV_SCALE_PCT").is_none() {
         for t in crate::fuzzing::TARGETS.iter().filter(|t| t.property == prop.id) {
             match run_fuzz_campaign(prop, t, seed, &scratch) {
                 Ok((info, mut fails, report)) => {
@@ -535,6 +535,8 @@ fn run_fuzz_campaign(
     let status = Command::new("cargo")
         .current_dir(&dir)
         .env("CARGO_NET_OFFLINE", "true")
+        // eight fuzz processes each with a 16-thread rayon pool only get in each other's way
+        .env("RAYON_NUM_THREADS", "2")
         .args(["+nightly", "fuzz", "run", "--fuzz-dir"])
         .arg(&fuzz_dir)
         .arg(t.name)
@@ -544,6 +546,9 @@ fn run_fuzz_campaign(
         .arg(format!("-seed={}", (seed % 1_000_000) + 1))
         .arg(format!("-max_len={}", t.max_len))
         .arg("-len_control=0")
+        // fixed work; the wall-clock cap only keeps a campaign on an overloaded machine from running for hours
+        // (hitting it means less was explored, nothing else)
+        .arg("-max_total_time=600")
         .arg(format!("-jobs={jobs}"))
         .arg(format!("-workers={jobs}"))
         .arg(format!("-artifact_prefix={}/", arts.display()))
